@@ -880,6 +880,12 @@ def rep_agreement(ctx, d):
             send_tables(ctx, terms, p)
             mv = parse_val(ctx.lean(f"pure log {wl(p['times'])} {wll(p['rows'])} {wll(p['jrows'])} 1"))
             mirrors = same_val(vb, mv, False, sc * abs(terms["notional"]))
+            if cls["event_differs"] and mirrors:
+                # C17 asks for the same *underlying* value in both representations (checked above); that the barrier level is
+                # compared with the raw (log) path is outside the statement: recorded as an observation (DESIGN.md §8.4), and the
+                # model mirrors it (theorem barrier_flag_depends_on_representation), so a change of it still breaks the tie
+                ctx.branches["c17.observation:barrier_level_compared_with_raw_log_path"] += 1
+                return
         ctx.fail("oracle", "c17.value_rep_agree", d, {"identity_on_spot_path": va, "log_on_log_path": vb,
                                                     "what": "product value differs between representations for the same spot path"},
                  cls=cls, mirrors_model=mirrors)
